@@ -50,12 +50,12 @@ PROPS = {
         "claimed": True,
         "coq": "Properties/C02.v",
         "domains": ["las"],
-        "nontrivial": ["disc:n", "step:W:D", "step:W:V", "step:W:L", "step:N", "step:R"],
+        "nontrivial": ["disc:n", "step:W:D", "step:W:V", "step:W:L", "step:N", "step:R", "api:reached-valid"],
         "rule": "cases = operation sequences on one TokenRing (own address, then W sa da / C / N a / R a), observed after EVERY operation "
                 "(las_state from Debug, ready_for_ring, NS, PS, LAS): all 256 own addresses; exhaustive sequences up to length 3-6 over small "
                 "address alphabets incl. 0, 125, 126..128, 255; random rings (1..126 members, 0 and 125 forced in, two-station rings) discovered "
                 "from an ignored prefix + wrap-around + two rotations, then further rotations, leaves, joins, own passes, GAP results "
-                "(set_next_station / remove_station), invalid addresses, claims; random operation soup. Deduplicated. Non-trivial = discovery cases "
+                "(set_next_station / remove_station), invalid addresses, claims; random operation soup; the same discovery/leave/join histories through the public API only (a listening FdlActiveStation on the simulator bus hearing token telegrams, observed by inspect_token_ring()). Deduplicated. Non-trivial = discovery cases "
                 "accepted by the Coq shape predicate plus every witnessed pass in Discovery/Verification/Valid and every N/R step",
         "trusted_base": [
             "hand model coq/Model/TokenRing.v of src/fdl/token_ring.rs (bit array of 128 as list bool, every index/range panic site, Debug impl), "
